@@ -103,3 +103,4 @@ Definition MSG_PARSE := codes "Error parsing request message. See server logs fo
 Definition MSG_AUTH := codes "An error occurred during client authentication. See server logs for more information.".
 Definition MSG_GENERAL := codes "An unexpected error occurred while processing request. See server logs for more information.".
 Definition MSG_TOO_LARGE := codes "Response message length too large. See server logs for more information.".
+Definition MSG_ENCODE := codes "An unexpected error occurred while encoding the response. See server logs for more information.".
